@@ -187,7 +187,16 @@ def run_leg(leg, log=None):
     for s in range(nshards):
         workers[s] = _Worker(leg, s, nshards, 0, env=leg.get("env"))
     suspects = []  # (case, desc, kind)
+    restarts = 0
     while workers:
+        if len(suspects) > restarts:
+            restarts = len(suspects)
+        if restarts > 48:
+            res.harness_errors.append("more than 48 worker restarts in leg %s: giving up on the remaining cases" % res.name)
+            for w in workers.values():
+                w.kill()
+            workers = {}
+            break
         progressed = False
         for s, w in list(workers.items()):
             try:
@@ -255,7 +264,13 @@ def run_leg(leg, log=None):
             workers = {}
         if not progressed:
             time.sleep(0.02)
-    # confirm suspects alone, on an otherwise idle machine
+    # confirm suspects alone, on an otherwise idle machine (at most 6 per leg: once a tree is
+    # that broken, more isolated re-runs add time, not information)
+    if len(suspects) > 6:
+        for (k, desc, kind) in suspects[6:]:
+            res.evaluations += 1
+            res.tags["suspect_not_rerun_alone:" + kind.split(":")[0]] += 1
+        suspects = suspects[:6]
     for (k, desc, kind) in suspects:
         res.evaluations += 1
         outcomes = []
